@@ -59,7 +59,7 @@ if "--readme" in sys.argv:
     rows = [head, "|---|---|---|---|---|"]
     for d in sorted((VERIF / "seeded").glob("C*_*")):
         meta = json.load(open(d / "meta.json"))
-        rnd = {"a": 1, "b": 1, "c": 2, "d": 2, "e": 3, "f": 3, "g": 4, "h": 4, "i": 5, "j": 5, "k": 6, "l": 6, "m": 7, "n": 7, "o": 8, "p": 8, "q": 9, "r": 9, "s": 10, "t": 10, "u": 11, "v": 11}[meta["id"][-1]]
+        rnd = {"a": 1, "b": 1, "c": 2, "d": 2, "e": 3, "f": 3, "g": 4, "h": 4, "i": 5, "j": 5, "k": 6, "l": 6, "m": 7, "n": 7, "o": 8, "p": 8, "q": 9, "r": 9, "s": 10, "t": 10, "u": 11, "v": 11, "w": 12, "x": 12}[meta["id"][-1]]
         first = meta.get("first_run_reported", meta.get("caught"))
         rows.append(f"| {meta['id']} | {meta['property']} | {rnd} | {'yes' if first else 'no'} | {', '.join(now[meta['id']]['rules']) or 'not reported (' + meta.get('not_reported_reason', 'obsolete after fix ' + meta['obsolete_after_fix'] if meta.get('obsolete_after_fix') else '?') + ')'} |")
     readme.write_text(text[:i] + "\n".join(rows) + text[j:])
